@@ -257,8 +257,8 @@ func maybeYield() {
 	}
 }
 
-func (m *RWMutex) Lock()         { maybeYield(); m.mu.Lock(); maybeYield() }
-func (m *RWMutex) Unlock()       { m.mu.Unlock(); maybeYield() }
+func (m *RWMutex) Lock()   { maybeYield(); m.mu.Lock(); maybeYield() }
+func (m *RWMutex) Unlock() { m.mu.Unlock(); maybeYield() }
 func (m *RWMutex) RLock() {
 	if atomic.LoadInt32(&singleGoroutine) == 1 && atomic.LoadInt32(&m.readers) > 0 {
 		atomic.AddInt32(&recursiveReadLocks, 1)
